@@ -10,7 +10,7 @@ class ContractError(Exception):
 
 
 def is_ref_kind(k):
-    return isinstance(k, tuple) and k[0] in ('list', 'arr', 'obj', 'set', 'opaque', 'ddict', 'pdict', 'idict')
+    return isinstance(k, tuple) and k[0] in ('list', 'arr', 'obj', 'set', 'opaque', 'ddict', 'pdict', 'idict', 'iter')
 
 
 def parse_kind(s):
